@@ -14,17 +14,17 @@ func init() { register("C09", checkC09) }
 // mapRangeTable: the hand-confirmed range-over-Go-map loops of the load/compile phase and why each is order-insensitive.
 // Key: function + "|" + type of the ranged map. A loop that is not listed is an unreviewed order source.
 var mapRangeTable = map[string]string{
-	"task.(*Compiler).getVariables|map[string]string":                    "special variables: keys are unique and values independent of each other; every later phase overrides by key",
-	"internal/deepcopy.Map|map[K]V":                                      "result is itself a Go map",
-	"internal/env.GetFromVars|map[string]any":                            "builds the process environment list: names are unique, the order of environment entries is immaterial",
-	"internal/experiments.readDotEnv|map[string]string":                  "setenv per key: names unique",
-	"internal/fingerprint.collectKeys|map[string]bool":                   "keys are sorted before being returned",
+	"task.(*Compiler).getVariables|map[string]string":                     "special variables: keys are unique and values independent of each other; every later phase overrides by key",
+	"internal/deepcopy.Map|map[K]V":                                       "result is itself a Go map",
+	"internal/env.GetFromVars|map[string]any":                             "builds the process environment list: names are unique, the order of environment entries is immaterial",
+	"internal/experiments.readDotEnv|map[string]string":                   "setenv per key: names unique",
+	"internal/fingerprint.collectKeys|map[string]bool":                    "keys are sorted before being returned",
 	"taskfile/ast.(*TaskfileGraph).Merge$1|map[string]graph.Edge[string]": "",
-	"taskfile/ast.(*TaskfileGraph).Merge|map[string]graph.Edge[string]":  "each iteration merges the included file into a DISTINCT parent, and merging never writes to the included file (rule merge-sources-read-only)",
-	"task.(*Executor).compiledTask|map[string]string":                    "task dotenv: first-wins per key across files; keys within one file are unique",
-	"internal/templater.ReplaceWithExtra|map[string]any":                 "",
-	"internal/deepcopy.TraverseStringsFunc$1|[]reflect.Value":            "",
-	"internal/sort.AlphaNumericWithRootTasksFirst|":                      "",
+	"taskfile/ast.(*TaskfileGraph).Merge|map[string]graph.Edge[string]":   "each iteration merges the included file into a DISTINCT parent, and merging never writes to the included file (rule merge-sources-read-only)",
+	"task.(*Executor).compiledTask|map[string]string":                     "task dotenv: first-wins per key across files; keys within one file are unique",
+	"internal/templater.ReplaceWithExtra|map[string]any":                  "",
+	"internal/deepcopy.TraverseStringsFunc$1|[]reflect.Value":             "",
+	"internal/sort.AlphaNumericWithRootTasksFirst|":                       "",
 }
 
 func checkC09(c *Check, a *Anchors) {
@@ -387,7 +387,6 @@ func aliasesMemory(v *types.Var) bool {
 	}
 	return false
 }
-
 
 // distinctTargets decides the claim "each iteration of this map loop writes to a target of its own": every Merge/Set call in
 // the loop body has a receiver that is derived from the loop's key or value variable (looked up with it), and no argument of
